@@ -113,8 +113,8 @@ def verdictI (line : String) : String :=
         let ks := c.drop 1
         (List.range ([1, 1, 2, 6, 24].getD ks.length 1)).map fun n => c.headD [] :: nthPerm n ks
       else [c]
-    let judge (ca cb : List Bytes) : Option (String × Sched.Result) :=
-      match interleave cA cB ca cb sched pre with
+    let judge (ca cb : List Bytes) (oa ob : Nat) : Option (String × Sched.Result) :=
+      match interleave { cA with order := oa } { cB with order := ob } ca cb sched pre with
       | none => none
       | some r =>
         let trA := if r.traceA.isEmpty then "-" else ",".intercalate r.traceA
@@ -131,7 +131,13 @@ def verdictI (line : String) : String :=
               | some d => s!"DIFF {d} after the schedule"
               | none => "OK"
         some (modelV, r)
-    let tries := (variants cmdA).flatMap fun ca => (variants cmdB).filterMap fun cb => judge ca cb
+    -- handlers that walk a Go map of their operands (SINTER*, SUNION*, SDIFF* …) take the order from `Ctx.order`:
+    -- every order is tried, as for single commands
+    let orders (c : List Bytes) : List Nat :=
+      let n := ((c.drop 1).eraseDups.length).min 3
+      List.range ([1, 1, 2, 6].getD n 1)
+    let tries := (variants cmdA).flatMap fun ca => (variants cmdB).flatMap fun cb =>
+      (orders cmdA).flatMap fun oa => (orders cmdB).filterMap fun ob => judge ca cb oa ob
     match (tries.find? fun t => !t.1.startsWith "DIFF").orElse (fun _ => tries.head?) with
     | none => pure s!"{id} SKIP unmodelled-command ## atom=na acls=- order={order}"
     | some (modelV, _) =>
